@@ -37,6 +37,21 @@ mixed do_op (string s, mixed hookarg) {
     e = objects ("ofilt");
     VL ("r obf " + my_oid () + " " + (this_object () ? c08_list (e) : "?") + " " + master()->live_ids ());
     break;
+  case "gh":
+    // the object goes on running after its own destruct and calls one more efun in the same function
+    d = (w[1] == "mv") ? master()->get (w[2]) : 0;
+    VL ("deb " + my_oid ());
+    destruct (this_object ());
+    VL ("r de " + my_oid () + " ok");
+    switch (w[1]) {
+    case "ln": set_living_name (w[2]); break;
+    case "ec": enable_commands (); break;
+    case "aa": add_action ("act", w[2]); break;
+    case "hbe": set_heart_beat (1); break;
+    case "mv": if (objectp (d)) move_object (d); break;
+    }
+    VL ("r gh " + my_oid () + " " + w[1]);
+    break;
   case "ret0":
     // the running action function returns 0 ("not my verb"): user_parser goes on with the next sentence
     act_ret = 0;
